@@ -18,6 +18,7 @@ import (
 	"strings"
 	"syscall"
 	"testing"
+	"time"
 	"unsafe"
 
 	"github.com/mk6i/mkdb/engine"
@@ -213,7 +214,12 @@ func TestVerifE2E(t *testing.T) {
 	}
 	go io.Copy(io.Discard, master) // prompt, echo and result tables
 	outs := make([]verifE2EOut, len(streams))
+	hung := false
 	for i, st := range streams {
+		if hung {
+			outs[i].Err = "not-run"
+			continue
+		}
 		func() {
 			o := &outs[i]
 			defer func() {
@@ -250,9 +256,21 @@ func TestVerifE2E(t *testing.T) {
 				}
 				done <- nil
 			}()
-			rerr := runTerminal(sess)
+			ended := make(chan error, 1)
+			go func() { ended <- runTerminal(sess) }()
 			if werr := <-done; werr != nil {
 				o.Err = "typing: " + werr.Error()
+				hung = true
+				return
+			}
+			var rerr error
+			select {
+			case rerr = <-ended:
+			case <-time.After(30 * time.Second):
+				// every keystroke incl. the closing Ctrl-D was delivered and the
+				// console is still reading: nothing more can run in this process
+				o.Err = "no-return: runTerminal was still running 30 s after the last keystroke (Ctrl-D on an empty line) had been written"
+				hung = true
 				return
 			}
 			if rerr != nil {
